@@ -51,6 +51,7 @@
 #include <sys/stat.h>
 
 #define MAXH 10
+int __lsan_do_recoverable_leak_check(void);
 #define HANG_MS 2500
 
 enum { K_FILE, K_ROT, K_TROT, K_CON, K_CAP };
@@ -390,7 +391,11 @@ static int files_ok(int si)
 			free(names[i]);
 		}
 	}
-	int ok = d.len == s->all.len && (d.len == 0 || memcmp(d.p, s->all.p, d.len) == 0);
+	/* the size-rotating handler keeps a bounded number of backups: what is on disk must be the
+	 * newest part of what was written (that nothing else is lost is C17's subject) */
+	int ok = s->kind == K_ROT
+		? d.len <= s->all.len && (d.len == 0 || memcmp(d.p, s->all.p + (s->all.len - d.len), d.len) == 0)
+		: d.len == s->all.len && (d.len == 0 || memcmp(d.p, s->all.p, d.len) == 0);
 	ds_free(&d);
 	return ok;
 }
@@ -429,11 +434,14 @@ static void destroy_logger(int report)
 		while (!g_destroy_done && ld(&g_sent_try) == 0 && now_ms() - t0 < 20000) usleep(20);
 		gate_set(1);
 		t0 = now_ms();
+		long lastw = -1;
 		while (!g_destroy_done) {
+			long w = ld(&g_wfrees);
+			if (w != lastw) { lastw = w; t0 = now_ms(); }   /* the writer is still draining */
 			if (now_ms() - t0 > HANG_MS) {
 				if (report) printf("destroy-hang sentinel-accepted=%ld\n", ld(&g_sent_ok));
 				fflush(stdout);
-				fprintf(stderr, "destroy-hang: muggle_async_logger_destroy did not return within %d ms "
+				fprintf(stderr, "destroy-hang: muggle_async_logger_destroy did not return, no progress for %d ms "
 					"with the gate open (sentinel attempts=%ld accepted=%ld; messages accepted=%ld, "
 					"writer frees=%ld)\n", HANG_MS, ld(&g_sent_try), ld(&g_sent_ok), ld(&g_acc), ld(&g_wfrees));
 				_exit(97);
@@ -689,7 +697,9 @@ static void vh_op(int argc, char **argv)
 		const char *k = argv[1];
 		int level = (int)vh_ll(argv[2]);
 		char f = argv[3][0];
-		if (g_nslots >= MAXH || (f != 's' && f != 'c' && f != 'n') || argv[3][1]) { printf("bad-op\n"); return; }
+		/* configuration changes while the async writer may be inside the dispatch loop would race with it */
+		if (g_nslots >= MAXH || (f != 's' && f != 'c' && f != 'n') || argv[3][1] || (g_mode == 2 && !g_gate_open)) {
+			printf("bad-op\n"); return; }
 		quiesce();
 		slot_t *s = &g_slots[g_nslots];
 		memset(s, 0, sizeof(*s));
@@ -697,7 +707,7 @@ static void vh_op(int argc, char **argv)
 		int rc = -1;
 		if (strcmp(k, "file") == 0) { s->kind = K_FILE; rc = muggle_log_file_handler_init(&s->u.file, s->path, "wb"); }
 		else if (strcmp(k, "rot") == 0) { s->kind = K_ROT; rc = muggle_log_file_rotate_handler_init(&s->u.rot, s->path, 1u << 30, 5); }
-		else if (strcmp(k, "rots") == 0) { s->kind = K_ROT; rc = muggle_log_file_rotate_handler_init(&s->u.rot, s->path, 6000, 100000); }
+		else if (strcmp(k, "rots") == 0) { s->kind = K_ROT; rc = muggle_log_file_rotate_handler_init(&s->u.rot, s->path, 6000, 50); }
 		else if (strcmp(k, "trot") == 0) { s->kind = K_TROT; rc = muggle_log_file_time_rot_handler_init(&s->u.trot, s->path, MUGGLE_LOG_TIME_ROTATE_UNIT_HOUR, 1, false); }
 		else if (strcmp(k, "con0") == 0) { s->kind = K_CON; rc = muggle_log_console_handler_init(&s->u.con, 0); }
 		else if (strcmp(k, "con1") == 0) { s->kind = K_CON; rc = muggle_log_console_handler_init(&s->u.con, 1); }
@@ -727,7 +737,7 @@ static void vh_op(int argc, char **argv)
 	}
 	if (strcmp(op, "setlevel") == 0 && argc == 3) {
 		int i = (int)vh_ll(argv[1]);
-		if (i < 0 || i >= g_nslots) { printf("bad-op\n"); return; }
+		if (i < 0 || i >= g_nslots || (g_mode == 2 && !g_gate_open)) { printf("bad-op\n"); return; }
 		quiesce();
 		muggle_log_handler_set_level(g_slots[i].base, (int)vh_ll(argv[2]));
 		printf("ok\n");
@@ -786,6 +796,11 @@ static void vh_op(int argc, char **argv)
 		if (bad < 0) printf(" files=ok\n"); else printf(" files=bad%d\n", bad);
 		destroy_handlers();
 		g_mode = 0; g_logger = NULL;
+		intern_clear();
+		/* everything of this case is gone now: whatever LeakSanitizer still finds was leaked by
+		 * this case (checked here so that it is attributed to the right case, not at exit) */
+		fflush(stdout);
+		if (__lsan_do_recoverable_leak_check()) _exit(98);
 		return;
 	}
 	printf("bad-op\n");
